@@ -299,6 +299,7 @@ def write_config_files(root: pathlib.Path) -> None:
         d.mkdir(parents=True, exist_ok=True)
         for name, doc in R.file_docs(lang).items():
             (d / f"{name}.yaml").write_text(yaml.safe_dump(doc), encoding="utf-8")
+            (d / "alias").mkdir(exist_ok=True)  # F0.yaml is also reachable as alias/../F0.yaml
     (root / "ns").mkdir(exist_ok=True)
 
 
@@ -699,7 +700,9 @@ class HistoryRunner:
         lang = run["lang"]
         a: typing.List[str] = []
         if run.get("cfg"):
-            a += ["--configuration"] + [str(self.cfgdir / lang / f"F{i}.yaml") for i in run["cfg"]]
+            a += ["--configuration"] + [
+                str(self.cfgdir / lang / (f"F{i}.yaml" if i < 3 else "alias/../F0.yaml")) for i in run["cfg"]
+            ]
         a += ["--target-language", lang, "--experimental-languages", "--list-configuration"]
         for key, flag in CLI_FLAGS:
             if key in run.get("flags", ()):
@@ -717,7 +720,7 @@ class HistoryRunner:
         lang = run["lang"]
         rb = R.RefBuilder(self.builtin, lang)
         for i in run.get("cfg", ()):
-            rb.add_file(self.docs[lang][f"F{i}"])
+            rb.add_file(self.docs[lang][f"F{i if i < 3 else 0}"])
         if run.get("ext"):
             rb.set("extension", R.to_canon(run["ext"]))
         opts: typing.Dict[str, typing.Any] = {}
@@ -962,6 +965,11 @@ def seqs(alphabet: typing.Sequence[str], max_len: int) -> typing.Iterator[typing
 
 PAIR_LANGS = (("c", "c"), ("cpp", "cpp"), ("py", "py"), ("c", "cpp"))
 CFG_ORDERS: typing.List[typing.Tuple[int, ...]] = [()] + [p for n in (1, 2, 3) for p in itertools.permutations((0, 1, 2), n)]
+# ... and file lists that name a file more than once (the LAST mention decides), also under another spelling of its path
+# (index 3 = F0.yaml reached as alias/../F0.yaml)
+CFG_REPEATS: typing.List[typing.Tuple[int, ...]] = [
+    p for n in (2, 3) for p in itertools.product((0, 1, 2), repeat=n) if len(set(p)) < n
+] + [(0, 1, 3), (3, 1, 0), (3, 1), (1, 3, 0)]
 FLAG_SETS: typing.List[typing.Tuple[str, ...]] = [
     tuple(k for (k, _), bit in zip(CLI_FLAGS, bits) if bit) for bits in itertools.product((0, 1), repeat=3)
 ]
@@ -1014,13 +1022,18 @@ def enumerate_b(ctx: Ctx) -> typing.Tuple[typing.List[dict], typing.Dict[str, ty
     for lang in R.LANGS:
         for flags in FLAG_SETS:
             for std in (None,) + R.STD_CHOICES:
-                for cfg in CFG_ORDERS:
-                    for endian in (None, "big"):
+                for cfg in CFG_ORDERS + CFG_REPEATS:
+                    repeated = cfg in CFG_REPEATS
+                    # "any" is an EXPLICIT value that equals the fallback of the command line; "little" meets F1's value
+                    for endian in (None, "big", "any", "little"):
                         for ext in (None, ".cli"):
+                            if (repeated or endian in ("any", "little")) and (flags or std or ext):
+                                continue  # the two added axes are combined with each other only
                             run = {"lang": lang, "flags": list(flags), "std": std, "cfg": list(cfg), "endian": endian, "ext": ext}
                             deviations = sum(1 for x in (flags, std, cfg, endian, ext) if x)
                             # fixed core: one option at a time, and every single option against three file lists
                             core = deviations <= 1 or (deviations == 2 and cfg in ((0,), (0, 1, 2), (2, 1, 0)))
+                            core = core or (repeated and endian is None and len(cfg) == 3 and cfg[0] == cfg[2] != cfg[1])
                             add(
                                 f"cli_single[{lang}]",
                                 "B|cli|" + json.dumps(run, sort_keys=True),
@@ -1136,7 +1149,7 @@ def run(ctx: Ctx) -> int:
             "B: " + ", ".join(f"{k} {v[1]}/{v[0]}" for k, v in sorted(ledger.items()))
             + " (api_single: every sequence of <=4 events over the language's full alphabet + final create; api_pair: "
             "builder 1 <=2 events, builder 2 <=3 events over the 6-event sharing alphabet, + final creates; cli_single: "
-            "3 languages x 8 flag sets x 7 standards x 16 file orders x 2 endianness x 2 extension; cli_pair: all "
+            "3 languages x 8 flag sets x 7 standards x 16 file orders x 2 endianness x 2 extension + 28 file lists with repeated files (also under another path spelling) x 4 endianness values incl. an explicit `any`; cli_pair: all "
             "ordered pairs of 8 invocations)"
         ),
         "exhaustive": exhaustive,
